@@ -27,9 +27,12 @@ def run(ctx: Ctx, chk) -> None:
     chk.run_rule(encid1, ctx)
     chk.run_rule(enc_fresh, ctx)
     # observed at Gateway.listen: the yielded message is the decode of the line just read (same rule as C02)
-    from .c02 import fresh_decode
+    from .c02 import decl1, fresh_decode
 
     chk.run_rule(fresh_decode, ctx)
+    # every well-formed message decodes: the field declarations carry no load-side restriction (a validator runs on
+    # load only, never on dump) beyond the ranges of the statement - any integer type, any payload text (same rule as C02)
+    chk.run_rule(decl1, ctx)
 
 
 def delim1(ctx: Ctx, chk) -> None:
